@@ -5,6 +5,7 @@ import (
 	"go/constant"
 	"go/token"
 	"go/types"
+	"os"
 	"sort"
 	"strings"
 
@@ -630,11 +631,26 @@ func c17NtimedRaw(p *ana.Prog, r *ana.Result) {
 		}
 	}
 	counterOK := false
+	// the incremented value: stored directly under the guard, or merged with the unchanged count
+	// (n := navg; if n < C { n++ }; ...; navg = n)
+	incVal := ssa.Value(nil)
+	var incAt *ssa.BasicBlock
 	if incr != nil && nStores == 1 {
-		if bo, ok := incr.Val.(*ssa.BinOp); ok && bo.Op == token.ADD && isNavgLoad(bo.X) {
+		incVal, incAt = incr.Val, incr.Block()
+		if ph, ok := incr.Val.(*ssa.Phi); ok && len(ph.Edges) == 2 {
+			for i, e := range ph.Edges {
+				other := ph.Edges[1-i]
+				if bo, ok := e.(*ssa.BinOp); ok && bo.Op == token.ADD && bo.X == other && isNavgLoad(other) {
+					incVal, incAt = bo, bo.Block()
+				}
+			}
+		}
+	}
+	if incr != nil && nStores == 1 {
+		if bo, ok := incVal.(*ssa.BinOp); ok && bo.Op == token.ADD && isNavgLoad(bo.X) {
 			if k, ok := constFloatOf(bo.Y); ok && k == 1 {
 				// guard navg < C with C >= 4 (or none)
-				for _, e := range ana.ControlDeps(do).Direct(incr.Block()) {
+				for _, e := range ana.ControlDeps(do).Direct(incAt) {
 					if iff, ok := e.From.Instrs[len(e.From.Instrs)-1].(*ssa.If); ok {
 						if c, pos, ok := ana.AsCmpDir(iff.Cond, token.LSS); ok && pos && c.Op == token.LSS && isNavgLoad(c.X) && e.Succ == 0 {
 							if lim, ok := constFloatOf(c.Y); ok && lim >= 4 {
@@ -678,8 +694,9 @@ func c17NtimedRaw(p *ana.Prog, r *ana.Result) {
 			}
 			s := g.Succs[0]
 			if len(s.Preds) == 1 && (s == b || s.Dominates(b)) {
-				// the counter must have been incremented before this test
-				if incr.Block().Dominates(g) || postDominatedBy(incr.Block(), g) {
+				// the counter must have been incremented before this test (or the test reads the
+				// incremented value that is stored as the new count)
+				if !isNavgLoad(c.X) || c.X == incr.Val || incr.Block().Dominates(g) || postDominatedBy(incr.Block(), g) {
 					return true
 				}
 			}
@@ -695,13 +712,16 @@ func c17NtimedRaw(p *ana.Prog, r *ana.Result) {
 		b := ph.Block().Preds[i]
 		fourth := domTrue(b, func(c ana.Cmp) bool {
 			k, ok := constFloatOf(c.Y)
-			return ok && isNavgLoad(c.X) && ((c.Op == token.GTR && k >= 3) || (c.Op == token.GEQ && k > 3))
+			return ok && (isNavgLoad(c.X) || c.X == incr.Val) && ((c.Op == token.GTR && k >= 3) || (c.Op == token.GEQ && k > 3))
 		})
 		outside := domTrue(b, func(c ana.Cmp) bool {
 			// oriented as X > Y: limit > lo (sample below its learned bound) or hi > limit
 			return c.Op == token.GTR && (c.Y == lo || c.X == hi)
 		})
 		key := fmt.Sprintf("non-raw-arm:%d", nArms)
+		if os.Getenv("C17_DEBUG") != "" {
+			fmt.Fprintf(os.Stderr, "arm %d block %d fourth=%v outside=%v incr.Val=%s\n", nArms, b.Index, fourth, outside, incr.Val.Name())
+		}
 		switch {
 		case fourth && outside:
 			r.Ok("C17.ntimed", fname, key, p.Pos(e.Pos()), "this arm replaces the raw value only from the fourth sample since reset on and only for a sample outside a learned bound")
